@@ -118,7 +118,7 @@ fn judge<S: ShortGroupSignatureScheme>(em: &mut Emitter, prop: &str, suite: &str
     }
 }
 
-fn c05_suite<S: ShortGroupSignatureScheme + 'static>(em: &mut Emitter, base: &mut Rng, suite: &str) {
+pub fn c05_suite<S: ShortGroupSignatureScheme + 'static>(em: &mut Emitter, base: &mut Rng, suite: &str, tag: &str, only: Option<&[&str]>) {
     let off = if suite == "bbs" { 0 } else { 1 };
     // (statement kind, statement id, claim index it speaks about)
     let kinds: Vec<(&str, &str, usize)> = vec![("commitment", "com0", 2), ("verenc", "ve0", 3), ("revocation", "rev0", 0), ("membership", "mem0", 1), ("ved", "ved0", 3), ("commitment+range", "com0", 2), ("equality", "eq0", 2)];
@@ -128,6 +128,11 @@ fn c05_suite<S: ShortGroupSignatureScheme + 'static>(em: &mut Emitter, base: &mu
         }
         let rng = &mut base.sub((2 * k + off) as u64);
         let (kind, st_id, ci) = kinds[k % kinds.len()];
+        if let Some(f) = only {
+            if !f.contains(&kind) {
+                continue;
+            }
+        }
         if kind == "ved" && !em.thorough() && k >= kinds.len() {
             continue;
         }
@@ -200,7 +205,7 @@ fn c05_suite<S: ShortGroupSignatureScheme + 'static>(em: &mut Emitter, base: &mu
                 Out::Ok(p) => p,
                 _ => continue,
             };
-            judge(em, "c05", suite, &format!("{}-on-other-claim", kind), &scn, &p, &format!("signed index {} proved for index {}", ci, j));
+            judge(em, tag, suite, &format!("{}-on-other-claim", kind), &scn, &p, &format!("signed index {} proved for index {}", ci, j));
             // model: what the verifier recomputes for the claim index it was asked about (not the one the holder used)
             recommit_lines(em, suite, &scn.schema, &p, &scn.nonce);
             // shape the proof's own disclosed-index list in every order
@@ -227,7 +232,7 @@ fn c05_suite<S: ShortGroupSignatureScheme + 'static>(em: &mut Emitter, base: &mu
                             sq.disclosed_messages = m;
                         }
                     }
-                    judge(em, "c05", suite, &format!("{}-on-other-claim+index-list-shaped", kind), &scn, &q, &format!("signed index {} proved for index {} order {:?}", ci, j, perm));
+                    judge(em, tag, suite, &format!("{}-on-other-claim+index-list-shaped", kind), &scn, &q, &format!("signed index {} proved for index {} order {:?}", ci, j, perm));
                     if kind == "equality" {
                         // model: sorted lookup of claim `ci` in every referenced proof, all equal (everything else in q is valid)
                         let qv = serde_json::to_value(&q).unwrap();
@@ -243,7 +248,7 @@ fn c05_suite<S: ShortGroupSignatureScheme + 'static>(em: &mut Emitter, base: &mu
             // the revocation handle / ved claim data come from the referenced credential in the prover
             if let Out::Ok(p) = steered_create(&scn.credentials, &prover_schema, &scn.schema, &scn.nonce, None) {
                 if scn.bundles[1].credential.claims[ci].to_scalar() != claims[ci].to_scalar() {
-                    judge(em, "c05", suite, &format!("{}-borrowed-from-other-credential", kind), &scn, &p, "");
+                    judge(em, tag, suite, &format!("{}-borrowed-from-other-credential", kind), &scn, &p, "");
                 }
             }
         }
@@ -254,7 +259,7 @@ fn c05_suite<S: ShortGroupSignatureScheme + 'static>(em: &mut Emitter, base: &mu
                 q.proofs.insert(st_id.to_string(), pr.clone());
             }
             fix_challenge(&mut q, &scn.schema, &scn.nonce, 2);
-            judge(em, "c05", suite, &format!("{}-proof-from-another-run", kind), &scn, &q, "");
+            judge(em, tag, suite, &format!("{}-proof-from-another-run", kind), &scn, &q, "");
             // honest list order must keep working when the holder lists the same indices in another order
             let mut q = p1.clone();
             if let Some(PresentationProofs::Signature(sq)) = q.proofs.get_mut(&sid) {
@@ -270,7 +275,7 @@ fn c05_suite<S: ShortGroupSignatureScheme + 'static>(em: &mut Emitter, base: &mu
                 em.op(format!("pred.linked {} {} {} {} 0", parts[0], if suite == "bbs" { 0 } else { 2 }, parts[1], parts[2]), format!("ok {}", sy));
             }
             if !scn.verify(&q).is_ok() {
-                em.violation("c05:honest-permuted-list-rejected", format!("{}: honest presentation with the disclosed-index list reversed is rejected ({})", suite, kind), scn.replay(json!({"suite": suite, "kind": kind})));
+                em.violation(&format!("{}:honest-permuted-list-rejected", tag), format!("{}: honest presentation with the disclosed-index list reversed is rejected ({})", suite, kind), scn.replay(json!({"suite": suite, "kind": kind})));
             }
         }
         if k < 3 {
@@ -506,14 +511,82 @@ fn surplus_response_forgery<S: ShortGroupSignatureScheme + 'static>(em: &mut Emi
     }
 }
 
+/// A commitment that is not bound by the challenge can be chosen *after* the challenge: the holder fixes the Schnorr
+/// commitment T with a nonce unrelated to the signature proof's, learns c, answers the signature proof honestly and sets
+/// C = (s_m·G + s_b·H − T)/c — a commitment it can open to a value other than the signed claim. The holder learns in a
+/// dry run which items the verifier hashes for the commitment proof; if C is among them the construction cannot close
+/// (it is rejected), otherwise it is accepted.
+fn late_commitment<S: ShortGroupSignatureScheme + 'static>(em: &mut Emitter, rng: &mut Rng, suite: &str) {
+    for ci in [2usize, 1] {
+        let mix = Mix { n_creds: 1, n_claims: 4, age: rng.range(18, 60), disclosed: vec![vec![]], commitment: Some(ci), ..Default::default() };
+        let scn = Scn::<S>::build(rng, &mix);
+        let sid = scn.sig_ids[0].clone();
+        let (g, h) = match scn.schema.statements.get("com0") {
+            Some(Statements::Commitment(c)) => (c.message_generator, c.blinder_generator),
+            _ => continue,
+        };
+        let without: Vec<Statements<S>> = scn.schema.statements.values().filter(|st| !matches!(st, Statements::Commitment(_))).cloned().collect();
+        let prover_schema = PresentationSchema::new_with_id(&without, &scn.schema.id);
+        em.oracle_case(&format!("{} late-commitment claim {}", suite, ci));
+        // dry run: what does the verifier hash for a commitment proof?
+        let p0 = match steered_create(&scn.credentials, &prover_schema, &scn.schema, &scn.nonce, None) {
+            Out::Ok(p) => p,
+            _ => continue,
+        };
+        let t = G1Projective::GENERATOR * rng.scalar();
+        let c_guess = G1Projective::GENERATOR * rng.scalar();
+        let mut v0 = serde_json::to_value(&p0).unwrap();
+        v0["proofs"]["com0"] = json!({"Commitment": {"id": "com0", "commitment": g1_hex_c(&c_guess), "blinder_proof": sc_hex(&rng.scalar())}});
+        let q0 = match pres_from_value::<S>(&v0) {
+            Out::Ok(q) => q,
+            _ => continue,
+        };
+        let (_, _, log) = verify_logged(&q0, &scn.schema, &scn.nonce);
+        let items = main_items(&log);
+        let (_, _, log0) = verify_logged(&p0, &prover_schema, &scn.nonce);
+        let n_sig = main_items(&log0).len().saturating_sub(public_prefix(&prover_schema, &scn.nonce).len());
+        let start = public_prefix(&scn.schema, &scn.nonce).len() + n_sig;
+        if n_sig == 0 || start >= items.len() {
+            em.count("late-commitment:no-items-learned");
+            continue;
+        }
+        // the learned items with the recomputed Schnorr commitment replaced by the holder's T (C stays the guess: if it is
+        // hashed, the final object cannot match)
+        let mut extra: Vec<(Vec<u8>, Vec<u8>)> = items[start..].to_vec();
+        let hashes_c = extra.iter().any(|(_, d)| d.as_slice() == c_guess.to_compressed().as_slice());
+        for it in extra.iter_mut() {
+            if it.0 == b"blind commitment" {
+                it.1 = t.to_compressed().to_vec();
+            }
+        }
+        em.count(&format!("late-commitment:verifier-hashes-the-commitment={}", hashes_c));
+        if let Out::Ok(p1) = steered_create_ext(&scn.credentials, &prover_schema, &scn.schema, &scn.nonce, None, extra) {
+            let v1 = serde_json::to_value(&p1).unwrap();
+            let slot = ci + if suite == "bbs" { 0 } else { 2 };
+            let s_m = v1["proofs"][&sid]["Signature"]["pok"]["proof"].get(slot).and_then(|x| x.as_str()).and_then(sc_from_hex);
+            let (s_m, c) = match (s_m, Option::<Scalar>::from(p1.challenge.invert())) {
+                (Some(s), Some(ci)) => (s, ci),
+                _ => continue,
+            };
+            let s_b = rng.scalar();
+            let com = (g * s_m + h * s_b - t) * c;
+            let mut v2 = v1.clone();
+            v2["proofs"]["com0"] = json!({"Commitment": {"id": "com0", "commitment": g1_hex_c(&com), "blinder_proof": sc_hex(&s_b)}});
+            if let Out::Ok(q) = pres_from_value::<S>(&v2) {
+                judge(em, "c05", suite, "commitment-chosen-after-the-challenge", &scn, &q, &format!("claim {}", ci));
+            }
+        }
+    }
+}
+
 pub fn gen_c05(em: &mut Emitter, rng: &mut Rng) {
     em.rule = "deviating holders owning valid credentials, per statement kind (commitment, range via commitment, verifiable encryption, encrypt-and-decrypt, \
                revocation, membership): the real prover runs the predicate sub-protocol on another hidden claim of the same credential / on the other \
                credential and is steered with the verifier's transcript for the requested claim; the proof's disclosed-index list is then put in every \
                order; predicate proofs are transplanted between runs; \
                the real prover run for a rescaled challenge with a surplus response appended and the commitment rescaled to an unsigned value. oracle: accepted although the value at the referenced claim differs".into();
-    c05_suite::<Bbs>(em, rng, "bbs");
-    c05_suite::<Ps>(em, rng, "ps");
+    c05_suite::<Bbs>(em, rng, "bbs", "c05", None);
+    c05_suite::<Ps>(em, rng, "ps", "c05", None);
     let base = 2 * em.n(12, 120);
     if em.mine(base) {
         revocation_on_disclosed_claim::<Bbs>(em, &mut rng.sub(8001), "bbs");
@@ -532,6 +605,12 @@ pub fn gen_c05(em: &mut Emitter, rng: &mut Rng) {
     }
     if em.mine(base + 5) {
         surplus_response_forgery::<Ps>(em, &mut rng.sub(8006), "ps");
+    }
+    if em.mine(base + 12) {
+        late_commitment::<Bbs>(em, &mut rng.sub(8013), "bbs");
+    }
+    if em.mine(base + 13) {
+        late_commitment::<Ps>(em, &mut rng.sub(8014), "ps");
     }
     // hand-written encrypt-and-decrypt holder: accepted ⇒ what the key holder recovers is the signed claim
     if em.mine(base + 10) {
@@ -673,6 +752,18 @@ fn c09_suite<S: ShortGroupSignatureScheme + 'static>(em: &mut Emitter, base: &mu
                     judge(em, "c09", suite, "independent-nonces", &scn, &q, &format!("pos {} high-bits-only {}", pos, high_bits_only));
                     let refs: Vec<String> = scn.sig_ids.iter().map(|id| sig_ref_tok(&v, id, n_claims)).collect();
                     em.op(format!("eq.verdict {} {} {}", if suite == "bbs" { 0 } else { 2 }, pos, refs.join(" ")), format!("{}", scn.verify(&q).is_ok()));
+                    // the first credential's proof repeated under the second statement's key, the genuine second proof parked
+                    // under a spare key: what is verified and what the equality check reads must be the same objects
+                    {
+                        let mut v3 = v.clone();
+                        let pa = v3["proofs"][&scn.sig_ids[0]].clone();
+                        let pb = v3["proofs"][&scn.sig_ids[1]].clone();
+                        v3["proofs"][&scn.sig_ids[1]] = pa;
+                        v3["proofs"]["spare"] = pb;
+                        if let Out::Ok(q3) = pres_from_value::<S>(&v3) {
+                            judge(em, "c09", suite, "proof-repeated-under-other-key", &scn, &q3, &format!("pos {}", pos));
+                        }
+                    }
                     // copy the first credential's response into the others' vectors at that claim's slot
                     // slot of a hidden claim = index − #(disclosed indices below it) (BBS), + 2 (PS), per credential
                     let slot_of = |c: usize| -> usize {
